@@ -112,3 +112,6 @@ CFG = {
 }
 
 CFG["level_extra"] = ('Scale covariance is proved FOR BINARY64 (C17_nn_greedy_scale_f64, C17_ls_deconv_scale_f64, C17_pad/wire_deconv_scale_f64): under a boolean, executable no-overflow/no-underflow predicate over the values the run actually produces (|k| <= 500), scaling the waveform by 2^k leaves every control decision unchanged and scales amplitudes by 2^k and the residual by 4^k bit for bit; the eleven op-level laws are proved through Flocq. The predicate is extracted (nn_safe_fast/ls_safe_fast = nn_safe/ls_safe by conversion) and evaluated on every rel17scale case. Beyond the binary64 range (|k| > 500, or an intermediate leaving [2^-1021, 2^1023]) the clause is false of any float implementation.')
+
+# a run with fewer cases than half of what the quick tier generates today would be a (partly) vacuous differential
+CFG["min_cases"] = 2389
